@@ -43,6 +43,38 @@ theorem fieldOk_gather (cont : Cont) (sh sh' : List Nat) (el : List Atom) (idx :
   · exact Or.inl (all_gather0 _ _ _ _ h)
   · exact Or.inr (all_gather0 _ _ _ _ h)
 
+theorem fieldOk_none (c : Codec) : fieldOk c .none = true := rfl
+
+theorem fieldOk_natVal (c : Codec) (n : Nat) : fieldOk c (natVal n) = true := by
+  simp [fieldOk, natVal, Val.isDict, storableLeaf, Atom.isNum]
+
+theorem fieldOk_nth (c : Codec) (items : Val) (i : Nat) (h : storable c items = true) :
+    fieldOk c (items.nth i) = true := by
+  induction items generalizing i with
+  | none => rfl
+  | str s => rfl
+  | tens _ _ _ => rfl
+  | dnil => rfl
+  | dcons k v r ihv ihr =>
+    simp only [storable_dcons, Bool.and_eq_true] at h
+    cases i with
+    | zero => exact h.1
+    | succ j => exact ihr j h.2
+
+theorem storable_takeItems (c : Codec) (items : Val) (j : Nat) (idx : List Nat)
+    (h : storable c items = true) : storable c (takeItems items j idx) = true := by
+  induction idx generalizing j with
+  | nil => rfl
+  | cons i r ih =>
+    simp only [takeItems, storable_dcons, Bool.and_eq_true]
+    exact ⟨fieldOk_nth c items i h, ih (j + 1)⟩
+
+theorem size_takeItems (items : Val) (j : Nat) (idx : List Nat) :
+    (takeItems items j idx).size = idx.length := by
+  induction idx generalizing j with
+  | nil => rfl
+  | cons i r ih => simp [takeItems, Val.size, ih (j + 1)]
+
 theorem fieldOk_takeVal (idx : List Nat) (v : Val) (h : fieldOk .utf8 v = true) :
     fieldOk .utf8 (takeVal idx v) = true := by
   cases v with
@@ -56,7 +88,14 @@ theorem fieldOk_takeVal (idx : List Nat) (v : Val) (h : fieldOk .utf8 v = true) 
   | none => exact h
   | str s => exact h
   | dnil => exact h
-  | dcons _ _ _ => exact h
+  | dcons k x items =>
+    simp only [takeVal]
+    by_cases hk : k = listKey
+    · simp only [hk, if_true, mkList]
+      simp only [fieldOk, Val.isDict, if_true, storable_dcons, Bool.and_eq_true] at h ⊢
+      exact ⟨fieldOk_natVal _ _, storable_takeItems .utf8 items 0 idx h.2⟩
+    · simp only [hk, if_false]
+      exact h
 
 theorem storable_mapVals_takeVal (idx : List Nat) (d : Val) (h : storable .utf8 d = true) :
     storable .utf8 (d.mapVals (takeVal idx)) = true := by
@@ -91,7 +130,10 @@ theorem elemOk_mapVals_takeVal (n : Nat) (idx : List Nat) (d : Val) (h : elemOk 
     | none => simp [elemOk] at h
     | str s => simp [elemOk] at h
     | dnil => simp [elemOk] at h
-    | dcons _ _ _ => simp [elemOk] at h
+    | dcons k2 x2 items =>
+      simp only [elemOk, Bool.and_eq_true] at h
+      have hk' : k2 = listKey := by simpa using h.1.1
+      simp [Val.mapVals, takeVal, hk', mkList, elemOk, size_takeItems, ihr h.2]
 
 theorem get?_mapVals (f : Val → Val) (d : Val) (k : String) :
     ((d.mapVals f).get? k) = (d.get? k).map f := by
